@@ -219,7 +219,7 @@ Proof.
     + match goal with |- context [k ?X] => assert (B : blen X q = blen s q)
         by (unfold blen; cbn; unfold upd; rewrite Nat.eqb_refl; reflexivity);
         destruct (Hk X ltac:(lia)) as [N L]; destruct (k X) end; cbn in *; try tauto; try (split; [exact I|lia]).
-      split; [exact I|]. unfold resume_r. destruct (_ || _); [lia|]. unfold blen in *. cbn. unfold upd. rewrite Nat.eqb_refl. cbn. lia.
+      split; [exact I|]. destruct (pending _); [|lia]. unfold resume_r. destruct (_ || _); [lia|]. unfold blen in *. cbn. unfold upd. rewrite Nat.eqb_refl. cbn. lia.
     + cbn. split; [exact I|]. unfold blen. rewrite (bad_samebuf q s q). lia.
 Qed.
 
